@@ -216,7 +216,7 @@ func runC13(c *wk.Ctx) {
 			cfg := gen.Full()
 			cfg.GoodDefaults = true
 			var shape *gen.Shape
-			if tricky := gen.TrickyShapes(); idx/10 < int64(len(tricky)) && idx%10 == 0 {
+			if tricky := gen.DescribableTrickyShapes(); idx/10 < int64(len(tricky)) && idx%10 == 0 {
 				shape = tricky[idx/10]
 			} else if r.Intn(4) == 0 {
 				shape = gen.GenObjectStandalone(r, cfg)
